@@ -45,6 +45,9 @@ def judge(ctx, rep, mm):
             elif s["same_parsed"] and k["kind"].startswith("OLVM"):
                 # OLVM transactions are protected by the account nonce: no encoding may execute twice
                 viol.append((k, s, "re-encoding of an executed OLVM transaction accepted or took effect again (account nonce)"))
+            elif s["same_parsed"] and k["kind"].startswith("GOV"):
+                # a proposal id stays taken in whichever store holds the proposal
+                viol.append((k, s, "re-encoding of an executed PROPOSAL_CREATE accepted or took effect again (proposal id)"))
             elif s["same_parsed"] and k["kind"].startswith("ETH"):
                 # Ethereum lock / redeem transactions are protected by their tracker record (ongoing, then archived)
                 viol.append((k, s, "re-encoding of an executed Ethereum lock/redeem transaction accepted or took effect again (tracker record)"))
